@@ -459,6 +459,12 @@ func (e *Env) call(x *Expr) Val {
 			r.Arr = o.elemArray(r)
 		}
 		return r
+	case "trig":
+		// trig(e) is true for every e (preamble axiom); writing it in a contract puts the term
+		// trig(e) into the query, which is the trigger of quantifiers over values (those whose
+		// bound variable is not an array index, e.g. forall w: s[tri(w)+u] ...)
+		a := e.eval(x.Args[0])
+		return boolVal(App("trig", SBool, a.T))
 	case "fresh":
 		s := e.eval(x.Args[0])
 		if e.freshBase == nil {
